@@ -1237,8 +1237,18 @@ func (fr *Frame) builtin(st *State, g string, b *ssa.Builtin, c *ssa.CallCommon,
 			newArr := fmt.Sprintf("(select %s (sref %s))", st.get(hv), dst)
 			oldArr := fmt.Sprintf("(select %s (sref %s))", preCopy.get(hv), dst)
 			vc.assume(fmt.Sprintf("(forall ((k Int)) (! (=> (or (< k (soff %s)) (>= k (+ (soff %s) %s))) (= (select %s k) (select %s k))) :pattern ((select %s k))))", dst, dst, n, newArr, oldArr, newArr))
+			if _, isSl := c.Args[1].Type().Underlying().(*types.Slice); isSl {
+				// memmove: element j of dst is the element j the source had before the copy
+				src := fr.val(c.Args[1])
+				srcArr := fmt.Sprintf("(select %s (sref %s))", preCopy.get(hv), src)
+				vc.absIdx(dst, "0")
+				vc.assume(fmt.Sprintf("(forall ((j Int)) (! (=> (and (<= 0 j) (< j %s)) (= (select %s (idx (soff %s) j)) (select %s (idx (soff %s) j)))) :pattern ((select %s (idx (soff %s) j)))))", n, newArr, dst, srcArr, src, newArr, dst))
+			} else {
+				vc.note("builtin copy in %s: the copied bytes of a string source are not tracked (only which elements change)", fr.fn.String())
+			}
+		} else {
+			vc.note("builtin copy in %s: the copied element values are not tracked (only which elements change)", fr.fn.String())
 		}
-		vc.note("builtin copy in %s: the copied element values are not tracked (only which elements change)", fr.fn.String())
 		return st, []string{n}
 	case "delete":
 		m := c.Args[0].Type().Underlying().(*types.Map)
@@ -1327,6 +1337,13 @@ func (fr *Frame) appendBuiltin(st *State, g string, c *ssa.CallCommon, pos token
 			vc.assume(fmt.Sprintf("(forall ((k Int)) (! (=> (< k (+ %s %s)) (= (select %s k) (select %s k))) :pattern ((select %s k))))", off, ln, a, oldArr, a))
 		} else {
 			vc.assume(fmt.Sprintf("(forall ((k (_ BitVec 64))) (! (=> (bvslt k (bvadd %s %s)) (= (select %s k) (select %s k))) :pattern ((select %s k))))", off, ln, a, oldArr, a))
+		}
+		if _, isSl := arg.Type().Underlying().(*types.Slice); isSl && !vc.isBV() {
+			// append(s, t...): the appended region holds the elements of t, in order
+			src := fr.val(arg)
+			srcArr := fmt.Sprintf("(select %s (sref %s))", heap, src)
+			vc.absIdx(s, "0")
+			vc.assume(fmt.Sprintf("(forall ((k Int)) (! (=> (and (<= %s k) (< k %s)) (= (select %s (idx %s k)) (select %s (idx (soff %s) (- k %s))))) :pattern ((select %s (idx %s k)))))", ln, newLen, a, off, srcArr, src, ln, a, off))
 		}
 		arr = a
 	}
